@@ -129,6 +129,36 @@ theorem c25_legacy_mismatch_partial (C : Crypto) (decode : Bytes → Option Node
   subst h1
   exact hdis h2
 
+/-- Deleting the legacy `sequence` (or `ttl`) protobuf field of a V1+V2 record: a legacy reader takes
+the absent proto3-optional field as 0 (`GetSequence()`/`GetTtl()`), so validation must — and does —
+fail whenever the signed Sequence (TTL) is not 0. -/
+theorem c25_deleted_legacy_field (C : Crypto) (decode : Bytes → Option Node) (parseTime : Bytes → Option Int)
+    (now : Int) (r : Record) (pk : Nat) (nd : Node) (i : Int) (hg : legacyGuard r.pb)
+    (hd : decode r.pb.data = some nd) :
+    (lookup nd "Sequence" = some (.int i) → r.pb.sequence = 0 → toU64 i ≠ 0 →
+      validate C decode parseTime now r pk ≠ .ok ()) ∧
+    (lookup nd "TTL" = some (.int i) → r.pb.ttl = 0 → toU64 i ≠ 0 →
+      validate C decode parseTime now r pk ≠ .ok ()) := by
+  constructor
+  · intro hl h0 hne
+    apply c25_legacy_mismatch_partial C decode parseTime now r pk nd hg hd
+    intro ha
+    obtain ⟨j, hj, hs⟩ := ha.2.2.2.1
+    rw [hl] at hj
+    simp only [Option.some.injEq, CVal.int.injEq] at hj
+    subst hj
+    rw [h0] at hs
+    exact hne hs.symm
+  · intro hl h0 hne
+    apply c25_legacy_mismatch_partial C decode parseTime now r pk nd hg hd
+    intro ha
+    obtain ⟨j, hj, hs⟩ := ha.2.2.2.2
+    rw [hl] at hj
+    simp only [Option.some.injEq, CVal.int.injEq] at hj
+    subst hj
+    rw [h0] at hs
+    exact hne hs.symm
+
 /-- Known finding (spec-tolerated): a V2-only record (no Value, no SignatureV1) whose legacy Sequence
 field was forged to disagree with the signed data still passes validation. -/
 theorem c25_legacy_unchecked_counterexample :
